@@ -397,13 +397,12 @@ zix_path_lexically_normal(ZixAllocator* const allocator, const char* const path)
       }
 
       result[r] = '\0';
-      return result;
     }
   }
 
   // Remove trailing dot entry
   if (r >= 2U && is_any_sep(result[r - 2]) && result[r - 1] == '.') {
-    result[r - 1] = '\0';
+    result[--r] = '\0';
   }
 
   // Remove trailing dot-dot entry
